@@ -75,6 +75,18 @@ CATALOGUE = [
     ('C06-e', 'C06', 'circus/client.py',
      "                self.stream.stop_on_recv()\n                raise CallError(\"Timed out.\")",
      "                raise CallError(\"Timed out.\")"),
+    ('C17-d', 'C17', 'circus/watcher.py',
+     "            # (not before its last output has been passed on)\n            self.stream_redirector.flush_redirections(process)\n",
+     ""),
+    ('C17-e', 'C17', 'circus/watcher.py',
+     "                self.stream_redirector.flush_redirections(process)\n                self.stream_redirector.remove_redirections(process)\n        finally:",
+     "                self.stream_redirector.remove_redirections(process)\n        finally:"),
+    ('C01-d', 'C01', 'circus/watcher.py',
+     "                if kept:\n                    yield [self.kill_process(process) for process in kept]",
+     "                if False:\n                    yield [self.kill_process(process) for process in kept]"),
+    ('C04-d', 'C04', 'circus/watcher.py',
+     "            if len(self.processes) >= self.numprocesses:\n                # numprocesses was lowered while we were sleeping\n                break\n",
+     ""),
     ('C07-a', 'C07', 'circus/sockets.py',
      "        if hasattr(self, 'set_inheritable'):\n            self.set_inheritable(True)",
      "        if hasattr(self, 'set_inheritable'):\n            self.set_inheritable(False)"),
